@@ -140,7 +140,7 @@ def c17(prop, tier, replay):
     import p_ll
     pre = None
     if not replay or "defs" not in json.load(open(replay))["case"]:
-        pre = p_ll.ll_check(prop, tier, replay, False, 3, 6 if tier == "quick" else 1, p_ll.RULE,
+        pre = p_ll.ll_check(prop, tier, replay, False, 3, 6 if tier == "quick" else 16, p_ll.RULE,
                             "TV: texts that differ only in skipped tokens (blanks, newlines, line and block comments) must give the verdict "
                             "and action sequence of the plain text; comments delivered once, in order, each skipped token a leaf", write=False)
         if replay:
